@@ -205,7 +205,7 @@ impl Agg {
                     "faults": case.cfg.faults},
                 "ops": case.ops.iter().map(exec::short_op).collect::<Vec<_>>(),
                 "steps": out.steps, "storage_ops": out.storage_ops, "context_switches": out.context_switches,
-                "api_errors": out.api_errors, "first_fault": out.first_fault,
+                "api_errors": out.api_errors, "first_fault": out.first_fault, "cases_of_this_run": out.sample_notes,
             }));
         }
     }
